@@ -2,7 +2,9 @@ package props
 
 import (
 	"bytes"
+	"encoding/binary"
 	"fmt"
+	"hash/crc32"
 	"io"
 	"os"
 	"strings"
@@ -226,6 +228,58 @@ func origins(s []gen.Src) []string {
 func TestC12(t *testing.T) {
 	rec := ev.New("C12", "exploration")
 	rec.Rule = "enumerated first: two streams separated by 1 MiB, 6 MiB and 6 MiB + 2 bytes of padding; then rapid draws 1-5 valid xz streams (library, reference generator incl. empty and zero-block streams, liblzma, corpus), zero padding 0..16 after each (mostly multiples of 4, 1/8 arbitrary), optional leading padding, optional trailing non-zero garbage, SingleStream on/off; a model predicts (content, error?): all paddings multiples of 4, no lead, no garbage -> concatenation and nil; otherwise an error with a prefix of the concatenation; SingleStream -> exactly the first content, error iff a byte follows; non-trivial = >= 2 members with content and some padding; distinct = hash(file bytes, SingleStream)"
+	// trailing bytes that LOOK like the beginning of another stream: a stream
+	// header alone, header plus first block header, and the same with the
+	// block header damaged (non-zero padding, or shortened below what its
+	// fields need) under a correct CRC32 - none of it is padding, all of it
+	// must be reported
+	enumerate(t, rec, checkC12, func(try func(caseC12) bool) {
+		a := gen.Src{Fmt: "xz", Origin: "ref", Seed: 61, NOps: 6, NChunks: 1, NBlocks: 1, Check: 4}
+		bsrc := gen.Src{Fmt: "xz", Origin: "ref", Seed: 62, NOps: 6, NChunks: 1, NBlocks: 1, Check: 1, ExtraPad: 1}
+		bb, err := bsrc.Build()
+		if err != nil {
+			rec.Incomplete("stream construction: " + err.Error())
+			return
+		}
+		res, err := ref.DecodeXZ(bb.Stream)
+		if err != nil {
+			rec.Incomplete("reference decoder: " + err.Error())
+			return
+		}
+		lay := &res.Layout
+		szs, crcs, pads := lay.Find("bh_size"), lay.Find("bh_crc"), lay.Find("bh_pad")
+		if len(szs) == 0 || len(crcs) == 0 || len(pads) == 0 {
+			rec.Incomplete("layout without block header spans")
+			return
+		}
+		hs, hc := szs[0].Off, crcs[0].Off
+		reseal := func(h []byte) []byte { return binary.LittleEndian.AppendUint32(h, crc32.ChecksumIEEE(h)) }
+		trails := [][]byte{append([]byte{}, bb.Stream[:hs]...), append([]byte{}, bb.Stream[:hc+4]...)}
+		padded := append([]byte{}, bb.Stream[hs:hc]...)
+		padded[len(padded)-1] = 1
+		trails = append(trails, append(append([]byte{}, bb.Stream[:hs]...), reseal(padded)...))
+		short := append([]byte{}, bb.Stream[hs:hs+4]...)
+		short[0] = 1
+		trails = append(trails, append(append([]byte{}, bb.Stream[:hs]...), reseal(short)...))
+		i := 0
+		for _, tr := range trails {
+			for _, tail := range [][]byte{nil, {0, 0, 0, 0}} {
+				for _, frag := range []fault.Frag{{Kind: "whole"}, {Kind: "lens", Lens: []int{5, 1, 3}, EOFWith: true}} {
+					i++
+					if i%rec.Shards != rec.Shard {
+						continue
+					}
+					rec.Class("trail_looks_like_a_stream")
+					if !try(caseC12{Srcs: []gen.Src{a}, Pads: []int{0}, Trail: append(append([]byte{}, tr...), tail...), Frag: frag}) {
+						return
+					}
+				}
+			}
+		}
+	})
+	if t.Failed() {
+		return
+	}
 	// chains read straight from an *os.File
 	enumerate(t, rec, checkC12, func(try func(caseC12) bool) {
 		for i := 0; i < 24; i++ {
